@@ -561,13 +561,16 @@ def absolute_case(args):
                                         "config": {key: {**lt["base"], opt: sweep[-1]}}, "carrier": carrier, "fails": True})
             # the command-line option against the same value in the file
             if opt in lt["cli"]:
-                for v in rng.sample(sweep, min(2, len(sweep))):
-                    code, got, tail = cli_run(proj, lt, {carrier: {key: {**lt["base"], opt: rng.choice(sweep)}}}, {opt: v})
+                # ... through every carrier (a discovered file and a file named with --config are different code paths)
+                for car in CARRIERS:
+                    v = rng.choice(sweep)
+                    other = rng.choice([x for x in sweep if x != v] or sweep)
+                    code, got, tail = cli_run(proj, lt, {car: {key: {**lt["base"], opt: other}}}, {opt: v})
                     want = sets[sweep.index(v)]
                     res["checked"] += 1
                     if got != want:
-                        res["problems"].append({"what": f"{lt['cli'][opt]} {v} over a config file value: {None if got is None else len(got)} violations, expected {len(want)}",
-                                                "fails": True})
+                        res["problems"].append({"what": f"{lt['cli'][opt]} {v} over the value {other} in {CARRIER_FILES[car]}: {None if got is None else len(got)} violations, expected {len(want)}",
+                                                "config": {key: {**lt["base"], opt: other}}, "carrier": car, "fails": True})
         # documented-invalid values end the run with exit 2, from a file and from the command line
         for opt, bad in lt["invalid"].items():
             for v in bad:
